@@ -17,7 +17,10 @@ IsaModes == {"imp","imm","zp","zpx","zpy","abs","absx","absy","indx","indy","ind
 
 (* syntactic operand forms of the assembler language:                                   *)
 (*  none  #e   e    e,x    e,y    (e,x)   (e),y   (e)    (e,y)    (e),x                 *)
-Forms == {"imp","imm","dir","dirx","diry","indx","indy","ind","indy_inner","indx_outer"}
+(* and the forms with a register in both places or on an immediate, which no ISA mode    *)
+(* corresponds to:  (e,x),y  (e,x),x  (e,y),x  (e,y),y   #e,x  #e,y                       *)
+Forms == {"imp","imm","dir","dirx","diry","indx","indy","ind","indy_inner","indx_outer",
+          "indx_y","indx_x","indy_x","indy_y","imm_x","imm_y"}
 
 Table == {
   <<"adc","imm",\h69>>, <<"adc","zp",\h65>>, <<"adc","zpx",\h75>>, <<"adc","abs",\h6D>>,
